@@ -3,7 +3,7 @@ from . import engprop, gen
 
 F = [gen.Feats(refs_closed=True), gen.Feats(refs_closed=True, named=True), gen.Feats(refs_closed=True, look=True, atomic=True)]
 CFG = {
-    "prop": "C02", "theorems": ["C02_groups_follow_reference"], "feats": F, "n_quick": 500, "n_thorough": 12000,
+    "prop": "C02", "theorems": ["C02_groups_follow_reference", "C02_groups_follow_reference_all"], "feats": F, "n_quick": 500, "n_thorough": 12000,
     "tiers": ("t2", "run", "sem"), "k_base_quick": 14, "k_extra_quick": 8, "k_base_thorough": 80, "k_extra_thorough": 40,
     "corpus": ["(?:(?:(a)|b)(?=))*", "(?:(?>(a)|b)){2}", "(?:(?:(a)|b)(?!x))+", "(?:(?=(a)|b).)+", "(?:(?:(a)|(b))(?!x))+",
                "(?:(?>(?:(a)(?=.))*)c|a*d)", "(?>(?:(a)(?=.))*)b", "(?<=(a)|(c?a))\\2b", "(?<=(a)|(ca))(?:\\2)?b", "(a)|(b)", "((a)|b)*", "(?=(a))\\1", "(?!(a))b", "((a)*?)b"],
